@@ -1,24 +1,48 @@
 #!/usr/bin/env python3
-"""prints the markdown table of independently seeded defects and what the checks did with them (from seeded/*/meta.json)"""
-import json, glob, os
+"""prints the markdown table of independently seeded defects and what the checks did with them (from seeded/*/meta.json);
+re-runs of the same patch (after a check was strengthened) are folded into one row showing the final result"""
+import json, glob, os, hashlib
 V = os.path.dirname(os.path.dirname(os.path.abspath(__file__)))
-rows = []
+groups = {}
 for f in sorted(glob.glob(os.path.join(V, "seeded", "*", "meta.json"))):
     d = json.load(open(f))
     sid = os.path.basename(os.path.dirname(f))
+    pf = os.path.join(os.path.dirname(f), "patch.diff")
+    h = hashlib.sha1(open(pf, "rb").read()).hexdigest() if os.path.exists(pf) else sid
+    groups.setdefault((d.get("property"), h), []).append((os.path.getmtime(f), sid, d))
+rows = []
+stats = {"kept": 0, "input": 0, "broken": 0, "missed": 0, "late": 0, "other": 0}
+for (pid, h), runs in sorted(groups.items(), key=lambda kv: sorted(kv[1])[0][1]):
+    runs.sort()
+    first_sid = runs[0][1]
+    t, sid, d = runs[-1]
     m = d.get("their_meta", {})
     summ = (m.get("summary") or "").replace("\n", " ").replace("|", "/")
     needs = (m.get("needs") or "").replace("\n", " ").replace("|", "/")
     st = d.get("status")
-    if st != "confirmed":
-        res = "not kept: " + st
-    elif d.get("detected"):
-        res = "caught, failing input replayed" if d.get("with_failing_input") else "caught (proof obligation / correspondence broken; no-failing-input-found)"
+    confirmed = [r for r in runs if r[2].get("status") == "confirmed"]
+    if not confirmed:
+        res = "not kept: " + str(st)
+        stats["other"] += 1
     else:
-        res = "**missed**"
+        d = confirmed[-1][2]
+        stats["kept"] += 1
+        earlier_miss = any(not r[2].get("detected") for r in confirmed[:-1])
+        if d.get("detected"):
+            if d.get("with_failing_input"):
+                res = "caught, failing input replayed"; stats["input"] += 1
+            else:
+                res = "caught (proof obligation / correspondence broken; no-failing-input-found)"; stats["broken"] += 1
+            if earlier_miss:
+                res += " — first missed, caught after the check was strengthened"; stats["late"] += 1
+        else:
+            res = "**missed by this property's check**"; stats["missed"] += 1
     out = (d.get("check_output") or [""])
-    line = next((l.strip() for l in out if l.startswith("  ")), "")[:140].replace("|", "/")
-    rows.append("| %s | %s | %s | %s | %s |" % (sid, summ[:170], needs[:150], res, line))
-print("| id | change | needs | result of `./check` | first line of the report |")
+    line = next((l.strip() for l in out if l.startswith("  ")), "")[:130].replace("|", "/")
+    rows.append("| %s | %s | %s | %s | %s |" % (first_sid, summ[:160], needs[:140], res, line))
+print("Totals: %(kept)d changes kept; %(input)d caught with a replayable failing input, %(broken)d caught through a broken obligation / "
+      "correspondence only, %(missed)d missed by their own property's check; %(late)d of the caught ones were first missed and led to a "
+      "stronger check; %(other)d not kept (patch/demo/suite not confirmed).\n" % stats)
+print("| id | change | needs | final result of `./check` | first line of the report |")
 print("|---|---|---|---|---|")
 print("\n".join(rows))
